@@ -1297,6 +1297,21 @@ class Message(ABC):
 
         return value
 
+    def _wire_type_fits(self, field_name: str, wire_type: int) -> bool:
+        meta = self._betterproto.meta_by_field_name[field_name]
+        if wire_type == WIRE_LEN_DELIM:
+            if meta.proto_type in WIRE_LEN_DELIM_TYPES:
+                return True
+            # packed repeated scalars
+            return self._betterproto.default_gen[field_name] is list
+        if wire_type == WIRE_VARINT:
+            return meta.proto_type in WIRE_VARINT_TYPES
+        if wire_type == WIRE_FIXED_32:
+            return meta.proto_type in WIRE_FIXED_32_TYPES
+        if wire_type == WIRE_FIXED_64:
+            return meta.proto_type in WIRE_FIXED_64_TYPES
+        return False
+
     def _include_default_value_for_oneof(
         self, field_name: str, meta: FieldMetadata
     ) -> bool:
@@ -1340,6 +1355,10 @@ class Message(ABC):
             return self
         for parsed in load_fields(stream):
             field_name = proto_meta.field_name_by_number.get(parsed.number)
+            if field_name and not self._wire_type_fits(field_name, parsed.wire_type):
+                # A known number with a wire type its declared type cannot
+                # have is kept like an unknown field.
+                field_name = None
             if not field_name:
                 self._unknown_fields += parsed.raw
                 # Unknown fields count towards the expected size as well
